@@ -104,6 +104,9 @@ class C10(Prop):
         'for odd k the reference is the same document with \\& instead of \\%',
         'payloads contain no line break (a comment runs to the end of its line)',
     )
+    probes = ('tok', 'reach')
+    probed_every = 10
+    reach_required = ['tokens.tokenize_escaped_symbols', 'tokens.tokenize_line_comment']
     min_nontrivial = 2000
     budget_s = {'quick': 200, 'thorough': 2400}
 
